@@ -348,6 +348,7 @@ func (c *Cache[K, V]) SetWithTTL(key K, value V, cost int64, ttl time.Duration) 
 	// cost is eventually updated. The expiration must also be immediately updated
 	// to prevent items from being prematurely removed from the map.
 	if prev, ok := c.storedItems.Update(i); ok {
+		verifPoint(c.cachePolicy, vpSetBeforeExit, keyHash)
 		c.onExit(prev)
 		i.flag = itemUpdate
 	}
@@ -376,6 +377,7 @@ func (c *Cache[K, V]) Del(key K) {
 	keyHash, conflictHash := c.keyToHash(key)
 	// Delete immediately.
 	_, prev := c.storedItems.Del(keyHash, conflictHash)
+	verifPoint(c.cachePolicy, vpDelBeforeExit, keyHash)
 	c.onExit(prev)
 	verifPoint(c.cachePolicy, vpDelAfterStore, keyHash)
 	// If we've set an item, it would be applied slightly later.
